@@ -6,7 +6,7 @@
 
    `exact_or_error a b r` is: if a, b and r all fit i128 then Ok (VInt I128 r) else an error. *)
 From TeraV Require Import Model.Value Model.Number Spec.Arith Proofs.NumberProofs
-  Proofs.NumCmpProofs.
+  Proofs.NumCmpProofs Proofs.NumCmpQ.
 
 (* + - * and unary minus: the exact result iff operands and result fit, otherwise an error;
    nothing else can come out (no wrapped / truncated value, no panic) *)
@@ -96,6 +96,17 @@ Theorem C13_pow_above_u32_is_error : forall ra a rb b,
   pow_exponent_above_u32 b -> num_pow (VInt ra a) (VInt rb b) = Some (RErr ErrMsg).
 Proof. exact pow_above_u32_errors. Qed.
 
+(* std's checked_pow (square-and-multiply over checked_mul, ported literally with 32 units of
+   fuel) never runs out of fuel for a u32 exponent and returns the exact power iff it fits *)
+Theorem C13_checked_pow_loop_exact : forall a e,
+  fits_i128 a -> 0 <= e <= u32_max ->
+  checked_pow_loop a e = Some (if in_i128 (a ^ e) then Some (a ^ e) else None).
+Proof.
+  exact (fun a e Ha He =>
+    eq_trans (checked_pow_loop_spec a e Ha He)
+             (f_equal Some (checked_pow_spec a e (proj1 He)))).
+Qed.
+
 (* `/` always yields the float quotient of the two operands converted to f64 *)
 Theorem C13_div_is_float : forall a b l r,
   as_number a = Some l -> as_number b = Some r ->
@@ -172,6 +183,12 @@ Proof.
            (conj (xcmp_trans r a b c) (xcmp_eq_l a b c)))).
 Qed.
 
+(* ... and it is the order of the rationals: comparing m1 * 2^e1 with m2 * 2^e2 in Coq's Q *)
+Theorem C13_exact_order_is_rational_order : forall m1 e1 m2 e2,
+  xcmp (XFin m1 e1) (XFin m2 e2) =
+  QArith_base.Qcompare (dyQ m1 e1) (dyQ m2 e2).
+Proof. exact dy_cmp_is_Qcompare. Qed.
+
 (* hence: reflexive, antisymmetric / symmetric, transitive, == consistent with the ordering *)
 Theorem C13_num_cmp_reflexive : forall a, wf_num a ->
   num_partial_cmp a a = Some Eq /\ num_eq a a = true.
@@ -225,6 +242,8 @@ Print Assumptions C13_pow_exact.
 Print Assumptions C13_no_panic.
 Print Assumptions C13_num_cmp_exact.
 Print Assumptions C13_vm_cmp_exact.
+Print Assumptions C13_exact_order_is_rational_order.
+Print Assumptions C13_checked_pow_loop_exact.
 Print Assumptions C13_num_cmp_representation_independent.
 
 (* non-vacuity *)
